@@ -1,7 +1,7 @@
 (* C08 - Stack, predicate, ALU and memory operations compute their documented results.  Statements only.
    `op_spec` (Spec/Ops.v) is the declarative reading of crates/asm-spec/asm.yml: stack top first,
    `Some (stack', memory')` = documented result, `None` = the operation fails. *)
-From EB Require Import Vm.Exec Spec.Ops Proofs.OpsRefine Proofs.OpsRefine3 Proofs.OpsRefineAll.
+From EB Require Import Vm.Exec Spec.Ops Proofs.OpsRefine Proofs.OpsRefine3 Proofs.OpsRefineAll Proofs.OpsAlgebra.
 Open Scope list_scope.
 Open Scope Z_scope.
 
@@ -43,6 +43,36 @@ Theorem C08_block_elems_iff : forall blk es,
 Proof. exact block_elems_iff. Qed.
 Theorem C08_same_set_spec : forall a b, same_set a b = true <-> (forall x, In x a <-> In x b).
 Proof. exact same_set_spec. Qed.
+
+(* ---------------- algebraic laws of the documented results ---------------- *)
+(* Operand order matters only where documented: Add, Mul, Eq, And, Or, BitAnd, BitOr are commutative
+   (including their failure behaviour); Gt/Lt and Gte/Lte mirror each other. *)
+Theorem C08_commutative_ops : forall o a b s m pm,
+  commutative_op o = true -> op_spec o (a :: b :: s) m pm = op_spec o (b :: a :: s) m pm.
+Proof. exact commutative_op_spec. Qed.
+Theorem C08_gt_lt_mirror : forall a b s m pm, op_spec OGt (a :: b :: s) m pm = op_spec OLt (b :: a :: s) m pm.
+Proof. exact gt_lt_mirror. Qed.
+Theorem C08_gte_lte_mirror : forall a b s m pm, op_spec OGte (a :: b :: s) m pm = op_spec OLte (b :: a :: s) m pm.
+Proof. exact gte_lte_mirror. Qed.
+(* Swap is its own inverse; x - x = 0 never fails; x = x holds; Not yields a boolean and inverts booleans. *)
+Theorem C08_swap_involutive : forall s m pm s' m',
+  op_spec OSwap s m pm = Some (s', m') -> op_spec OSwap s' m' pm = Some (s, m).
+Proof. exact swap_involutive. Qed.
+Theorem C08_sub_self : forall a s m pm, op_spec OSub (a :: a :: s) m pm = Some (0 :: s, m).
+Proof. exact sub_self. Qed.
+Theorem C08_eq_self : forall a s m pm, op_spec OEq (a :: a :: s) m pm = Some (1 :: s, m).
+Proof. exact eq_self. Qed.
+Theorem C08_not_boolean : forall a s m pm,
+  exists r, op_spec ONot (a :: s) m pm = Some (r :: s, m) /\ (r = 0 \/ r = 1).
+Proof. exact not_boolean. Qed.
+Theorem C08_not_not_boolean : forall a s m pm, a = 0 \/ a = 1 ->
+  op_spec ONot (a :: s) m pm = Some (b2z (a =? 0) :: s, m) /\
+  op_spec ONot (b2z (a =? 0) :: s) m pm = Some (a :: s, m).
+Proof. exact not_not_boolean. Qed.
+(* Stack, predicate and ALU operations never touch memory. *)
+Theorem C08_pure_stack_op_memory : forall o s m pm s' m',
+  pure_stack_op o = true -> op_spec o s m pm = Some (s', m') -> m' = m.
+Proof. exact pure_stack_op_memory. Qed.
 
 (* ---------------- concrete evaluations of the specification (stack top first) ---------------- *)
 (* Sub is lhs - rhs with rhs on top; it fails instead of wrapping *)
